@@ -4,7 +4,8 @@
     extracted inductive types. *)
 From Coq Require Import extraction.Extraction extraction.ExtrOcamlBasic.
 From LC Require Import Spec.Term Spec.Subst Spec.Beta Spec.Strategies Spec.Positions Spec.Predicates
-  Spec.Chars Spec.Grammar Spec.Printing Model.Reduction Model.TermOps Model.Parser Model.Display.
+  Spec.Chars Spec.Grammar Spec.Printing Spec.Encodings Model.Reduction Model.TermOps Model.Parser Model.Display
+  Model.Convert Gen.Terms.
 Set Extraction Optimize.
 Extraction "lc_model.ml"
   term_eqb size subst shift inst beta_sub step_of iter nf_of nfb whnfb wnfb hnfb
@@ -13,4 +14,9 @@ Extraction "lc_model.ml"
   unvar unabs unapp lhs rhs set_var set_abs set_app_l set_app_r abs_macro app_macro abs_c app_c
   has_free_variables max_depth is_isomorphic_to is_supercombinator
   parse tokenize_dbr tokenize_cla convert_classic_tokens get_ast fold_exprs display debug
-  ref_parse ref_print_cla ref_print_dbr canon indices_in classify.
+  ref_parse ref_print_cla ref_print_dbr canon indices_in classify
+  church scott parigot stumpfu binary bool_t pair_t none_t some_t ok_t err_t tuple_t pair_list church_list scott_list parigot_list
+  dec_church dec_scott dec_parigot dec_stumpfu dec_binary
+  into_church into_scott into_parigot into_stumpfu into_binary into_signed into_pair into_option into_result
+  into_pair_list into_church_list into_scott_list into_parigot_list tuple_macro pi_macro
+  all_terms.
